@@ -467,6 +467,13 @@ def main(argv):
                     break
             c.cov["traces_validated_against_impl"] += len(tl)
             c.cov["distribution"]["model-with-computed-key-hash"] = len(tl)
+    # thorough: naming, option handling and key hashing again through the ASan+UBSan build of the harness
+    if c.tier == "thorough":
+        hl_asan = []
+        for ri, r, data, recs, outs in pending[:40]:
+            for l in recs[:200]:
+                hl_asan.append("H %s %s %s" % (r["spec"], r["delim"].hex(), l.hex() if l else "-"))
+        asan_lines(c, "hx_shard", nlines + alines + hl_asan, what="(ParseArgs, RangeFields, HashCallback)")
     # block sizes handed to the writer: model vs kBlockSize arithmetic
     if drv:
         rc, kout, _ = run_lines(drv, ["K"])
